@@ -1029,6 +1029,13 @@ def gen_ops(rng, cfg, seed_tag) -> list:
 
 
 SIM = AoefSim
+SIMPLIFY = {
+    "fault": None,
+    "path_as": "str",
+    "audio_as": "str",
+    "api": "io",
+    "type_arg": False,
+}
 prune_candidates = specs.prune_candidates
 NONTRIVIAL_RULE = {
     "C01": "run with >=1 acknowledged save and >=1 fully checked load on a "
